@@ -392,6 +392,44 @@ def front_end_nulls(ctx, R):
     if n11 < 15:
         raise AnalysisBroken("front end: only %d cache hand-overs of a named token found" % n11)
 
+    # ---- R12: macro_t::checkArgs is the only guard in front of macroArgument::expandArg's args[arg_] ------------------------------------------
+    ca = prog.fn("occa::lang::macro_t::checkArgs")
+    ccfg = ca.cfg
+    CIN = ccfg.facts_in()
+    defs = ca.local_defs()
+
+    def resolve(e, depth=0):
+        e = strip(e)
+        while e["k"] in ("ParenExpr", "CStyleCastExpr", "ImplicitCastExpr") and kids(e):
+            e = strip(kids(e)[0])
+        if e["k"] == "DeclRefExpr" and e.get("loc") and depth < 4:
+            ds = defs.get(e["d"], [])
+            if len(ds) == 1 and ds[0]["k"] == "VarDecl" and kids(ds[0]):
+                return resolve(kids(ds[0])[0], depth + 1)
+        return e
+    rets = [r for r in ca.walk() if r["k"] == "ReturnStmt" and kids(r) and literal(kids(r)[0]) is True]
+    okc = bool(rets)
+    for r in rets:
+        good = False
+        for (k, pol) in ccfg.facts_at(r, CIN):
+            n_ = ccfg.fact_node((k, pol)) if (k, pol) in ccfg._factnode else None
+            if n_ is None or n_["k"] != "BinaryOperator" or n_.get("op") not in ("<", ">=", ">", "<="):
+                continue
+            l_, r_ = resolve(kids(n_)[0]), resolve(kids(n_)[1])
+            # normalise to  supplied < required  being false
+            if n_["op"] in (">", "<="):
+                l_, r_ = r_, l_
+            supplied = is_call(l_) and callee(l_).endswith("::size")
+            required = is_call(r_) and callee(r_) == "occa::lang::macro_t::argCount" and not call_args(r_)
+            want_false = n_["op"] in ("<", ">")
+            if supplied and required and (pol is not want_false):
+                good = True
+        okc = okc and good
+    R.ob("C16-R12", okc, ca.q, "accepted only if args.size() >= argCount()", ca.site(rets[0]) if rets else ca.relfile,
+         "every accepting return knows that no named parameter is missing" if okc else
+         "a call with fewer arguments than named parameters can be accepted (the lower bound is not the bare argCount()): macroArgument::expandArg then reads args[arg_] past the end - "
+         "`#define F(a, ...) a` / `F()` dereferences NULL in every translator")
+
     # ---- R5 -----------------------------------------------------------------------------------------------------------------
     okl = prog.fn("occa::lang::okl::pathHasValidOklLoopOrdering")
     limits = set()
@@ -448,6 +486,7 @@ def run(ctx):
     R.rule("C16-R9", "std::sto* conversions of user-controlled text run inside a try block (they throw std:: exceptions)", floor=2)
     R.rule("C16-R10", "after the token cursor advances, the token under it is dereferenced only behind a size / safe-type test (the advance may reach the end)", floor=20)
     R.rule("C16-R11", "a token handed to the input / output cache is not deleted afterwards by the function that handed it over", floor=15)
+    R.rule("C16-R12", "a macro call is accepted only if it supplies every named parameter (expandArg indexes the argument vector unchecked)", floor=1)
     R.rule("C16-R6", "a parser function that pushes a statement context pops it on every path to a normal exit", floor=8)
     R.rule("C16-R5", "the three-entry dimension arrays are indexed by an OKL loop index that the validator bounds by 3", floor=4)
 
